@@ -31,6 +31,29 @@ type Listable interface {
 
 ///////////////////////
 
+// cmpInt64 and cmpUint64 order numbers without subtracting them: a difference
+// wraps around for narrow and 64-bit signed types and is never negative for
+// unsigned types.
+func cmpInt64(a, b int64) int {
+	if a < b {
+		return -1
+	}
+	if a > b {
+		return 1
+	}
+	return 0
+}
+
+func cmpUint64(a, b uint64) int {
+	if a < b {
+		return -1
+	}
+	if a > b {
+		return 1
+	}
+	return 0
+}
+
 type String string
 
 func (String) Format() Format {
@@ -194,7 +217,7 @@ func (x Int8) Value() interface{} {
 }
 
 func (x Int8) Compare(y Comparable) int {
-	return int(int8(x) - y.Value().(int8))
+	return cmpInt64(int64(x), int64(y.Value().(int8)))
 }
 
 func (x Int8) Int64() int64 {
@@ -242,13 +265,7 @@ func (x UInt8) Value() interface{} {
 }
 
 func (x UInt8) Compare(b Comparable) int {
-	c := uint8(x) - b.Value().(uint8)
-	if c < 0 {
-		return -1
-	} else if c > 0 {
-		return 1
-	}
-	return 0
+	return cmpUint64(uint64(x), uint64(b.Value().(uint8)))
 }
 
 func (x UInt8) Int64() int64 {
@@ -296,7 +313,7 @@ func (x Int16) Value() interface{} {
 }
 
 func (x Int16) Compare(y Comparable) int {
-	return int(int16(x) - y.Value().(int16))
+	return cmpInt64(int64(x), int64(y.Value().(int16)))
 }
 
 func (x Int16) Int64() int64 {
@@ -344,13 +361,7 @@ func (x UInt16) Value() interface{} {
 }
 
 func (x UInt16) Compare(b Comparable) int {
-	c := uint16(x) - b.Value().(uint16)
-	if c < 0 {
-		return -1
-	} else if c > 0 {
-		return 1
-	}
-	return 0
+	return cmpUint64(uint64(x), uint64(b.Value().(uint16)))
 }
 
 func (x UInt16) Int64() int64 {
@@ -398,7 +409,7 @@ func (x Int32) Value() interface{} {
 }
 
 func (x Int32) Compare(y Comparable) int {
-	return int(x) - y.Value().(int)
+	return cmpInt64(int64(x), int64(y.Value().(int)))
 }
 
 func (x Int32) Int64() int64 {
@@ -446,13 +457,7 @@ func (x UInt32) Value() interface{} {
 }
 
 func (x UInt32) Compare(b Comparable) int {
-	c := uint(x) - b.Value().(uint)
-	if c < 0 {
-		return -1
-	} else if c > 0 {
-		return 1
-	}
-	return 0
+	return cmpUint64(uint64(x), uint64(b.Value().(uint)))
 }
 
 func (x UInt32) Int64() int64 {
@@ -500,13 +505,7 @@ func (x Int64) Value() interface{} {
 }
 
 func (x Int64) Compare(b Comparable) int {
-	c := int64(x) - b.Value().(int64)
-	if c < 0 {
-		return -1
-	} else if c > 0 {
-		return 1
-	}
-	return 0
+	return cmpInt64(int64(x), b.Value().(int64))
 }
 
 func (x Int64) Int64() int64 {
@@ -554,13 +553,7 @@ func (x UInt64) Value() interface{} {
 }
 
 func (x UInt64) Compare(b Comparable) int {
-	c := uint64(x) - b.Value().(uint64)
-	if c < 0 {
-		return -1
-	} else if c > 0 {
-		return 1
-	}
-	return 0
+	return cmpUint64(uint64(x), uint64(b.Value().(uint64)))
 }
 
 // Cannot safely convert to int64
